@@ -60,6 +60,10 @@ pub fn value_corpus(k: usize, cap: usize, per_shape_limit: usize) -> Vec<(Shape,
         }
     }
     out.push((Shape::Bytes, bv));
+    // long runs of single-byte items (each goes through try_push, not a block write)
+    out.push((Shape::Seq(Box::new(Shape::U8)), vec![Val::Seq((0..40u8).map(Val::U8).collect()), Val::Seq(vec![Val::U8(0); 17])]));
+    out.push((Shape::Tuple(vec![Shape::Bool; 20]), vec![Val::Tuple((0..20).map(|i| Val::Bool(i % 3 == 0)).collect())]));
+    out.push((Shape::Seq(Box::new(Shape::Option(Box::new(Shape::I8)))), vec![Val::Seq((0..24).map(|i| if i % 5 == 0 { Val::Some(Box::new(Val::I8(-1))) } else { Val::None }).collect())]));
     out
 }
 
@@ -87,6 +91,17 @@ pub fn run(ctx: &Ctx) {
             match trap(|| postcard::experimental::serialized_size(&d)) {
                 Ok(Ok(n)) if n == plain.len() => {}
                 other => ctx.violation("size", format!("serialized_size {:?}, length is {}", other, plain.len()), si as u64, json!({"shape": s, "value": v})),
+            }
+            // the unbounded storages never fail and produce the same bytes: Extend sinks, std vector
+            for (name, got) in [
+                ("to_extend(Vec)", trap(|| postcard::to_extend(&d, Vec::<u8>::new()))),
+                ("to_extend(VecDeque)", trap(|| postcard::to_extend(&d, std::collections::VecDeque::<u8>::new()).map(|q| q.into_iter().collect::<Vec<u8>>()))),
+                ("to_stdvec", trap(|| postcard::to_stdvec(&d))),
+            ] {
+                match got {
+                    Ok(Ok(b)) if b == plain => {}
+                    other => ctx.violation("unbounded-storage", format!("{name} gave {:?}, growable vector gives {}", other.map(|r| r.map(|b| hex(&b))), hex(&plain)), si as u64, json!({"shape": s, "value": v, "storage": name})),
+                }
             }
             for (fi, f) in framings.iter().enumerate() {
                 let want = f.reference(&plain);
